@@ -104,7 +104,7 @@ impl BBSplusPoKSignature {
     /// * `Result<Self, Error>` - A result containing the deserialized `BBSplusPoKSignature` or an error.
     pub fn from_bytes(bytes: &[u8]) -> Result<Self, Error> {
         // 3 points, e^, r1^, r3^ and the challenge are always present
-        if bytes.len() < 3 * 48 + 4 * 32 {
+        if bytes.len() < 3 * 48 + 4 * 32 || (bytes.len() - 3 * 48) % 32 != 0 {
             return Err(Error::InvalidProofOfKnowledgeSignature);
         }
 
@@ -1001,7 +1001,7 @@ impl BBSplusZKPoK {
     /// * A Result containing the `BBSplusZKPoK` or an Error.
     pub fn from_bytes(bytes: &[u8]) -> Result<Self, Error> {
         // s^ and the challenge are always present
-        if bytes.len() < 2 * 32 {
+        if bytes.len() < 2 * 32 || bytes.len() % 32 != 0 {
             return Err(Error::InvalidProofOfKnowledgeSignature);
         }
 
